@@ -172,7 +172,7 @@ def render_layer(i, L, need_decode=False):
             + "</ADDITIONAL-AUDIENCES>")
     if kind == "PROTOCOL":
         x.append('<COMPARAM-SPEC-REF ID-REF="CPS" DOCREF="CPS" DOCTYPE="COMPARAM-SPEC"/>')
-    if L.get("parents") and kind != "ECU-SHARED-DATA":
+    if L.get("parents"):   # (PARENT-REFS below an ECU-SHARED-DATA are not read by the loader; the model ignores them too)
         prs = []
         for j, excl in L["parents"]:
             ni = ""
@@ -181,7 +181,6 @@ def render_layer(i, L, need_decode=False):
                 if names:
                     w, it, sr = NOT_INH[g]
                     ni += f"<{w}>" + "".join(f'<{it}><{sr} SHORT-NAME="{sn(n)}"/></{it}>' for n in names) + f"</{w}>"
-            pk = None
             prs.append((j, ni))
         x.append("<PARENT-REFS>" + "".join(
             f'<PARENT-REF ID-REF="{lname(j)}" DOCREF="{lname(j)}" DOCTYPE="LAYER" xsi:type="{{T{j}}}-REF">{ni}</PARENT-REF>' for j, ni in prs)
